@@ -31,6 +31,8 @@ def to_cfg(row, seed):
              volume_variation=(1.0 if row["metric"] == "vol" else None))
     if row["target"] == "support":
         c["tkw"] = dict(f=0.5)
+    if row.get("shift"):
+        c["shift"] = row["shift"]
     return c
 
 
@@ -140,7 +142,7 @@ def case(cfg, trims):
     for j in range(len(xflat)):
         ref_lw[xflat[j].tobytes()] = float(lwn[j])
     pool_n = len(xflat)
-    have_blobs = c["mode"] in ("blobs", "blobs2", "blobs3")
+    have_blobs = c["mode"] in ("blobs", "blobs2", "blobs3", "blobview")
     for (rs, rb, tr, rl) in itertools.product([False, True], repeat=4):
         for (et, bt) in (trims if tr else trims[:1]):
             where = f"posterior(resample={rs}, return_blobs={rb}, trim_importance_weights={tr}, return_logw={rl}, ess_trim={et}, bins_trim={bt})"
@@ -330,6 +332,13 @@ def run():
         rows = rows[:8] if len(rows) > 8 else rows
     rows = list(rows) + [dict(target="gauss2", kernel="tpcn", resample="syst", clustering=False, mode="blobs3", metric="ess", N=32, ntot=3),
                          dict(target="bimodal", kernel="rwm", resample="mult", clustering=True, mode="blobs2", metric="vol", N=32, ntot=3)]
+    # un-normalised likelihoods: a constant of +-720 ... +-1e5 on the log-likelihood puts the evidence (and every un-normalised
+    # weight) outside the range of exp(); the postconditions are statements about normalised weights and do not depend on it
+    shifts = [-1000.0, 900.0, -760.0, 720.0, -1e5, 3e4]
+    for j in range(ck.pick(4, 12)):
+        rows.append(dict(target=["gauss2", "bimodal", "expface", "support"][j % 4], kernel=["tpcn", "rwm"][j % 2], resample=["syst", "mult"][(j // 2) % 2],
+                         clustering=bool(j % 3 == 0), mode=["vec", "scalar", "blobs"][j % 3], metric=["ess", "vol"][(j // 3) % 2], N=[32, 48][j % 2], ntot=[4, 16][j % 2],
+                         shift=shifts[j % len(shifts)]))
     trims = TRIMS[:5] if ck.quick else TRIMS
     ck.tables["pairwise_coverage"] = cover.coverage(rows, FACTORS, 2)
     ck.tables["threeway_coverage"] = cover.coverage(rows, FACTORS, 3)
@@ -345,6 +354,7 @@ def run():
             continue
         ck.case(dict(cfg=cfg), nontrivial=val["combos"] > 0)
         ck.event("completed runs with postconditions checked")
+        ck.event("runs whose log-likelihood carries a constant of 720 ... 1e5 in absolute value", int(bool(cfg.get("shift"))))
         ck.event("posterior() option combinations called", val["combos"])
         ck.event("finished runs re-opened from their final checkpoint", val.get("reopened", 0))
         ck.event("second run() on the same sampler object judged", val.get("rerun", 0))
